@@ -239,6 +239,67 @@ def h_ipow(eng, u, k, form):
     eng.prove(a.check(fresh.dimensionality), f"ipow{k}-{form}:check-follows-units")
 
 
+def h_power_forms(eng, u, k):
+    """exponents given as dimensionless quantities, and quantities as exponents of bare numbers"""
+    ureg = regs.default(eng)
+    x, c = eng.real("x"), eng.real("c")
+    if k < 0:
+        eng.assume(Not(Eq(x, 0)))
+        eng.assume(Not(Eq(c, 0)))
+    a = ureg.Quantity(x, u)
+    want = a**k
+    for label, e in (("plain", ureg.Quantity(k, "")), ("percent", ureg.Quantity(100 * k, "percent")), ("radian-free", ureg.Quantity(k, "meter/meter"))):
+        s, r = _run(lambda: a**e)
+        eng.prove(s == "ok", f"pow-quantity-exponent:{label}:accepted")
+        if s == "ok":
+            _same(eng, want, r, f"pow-quantity-exponent:{label}")
+    if k != 0:
+        s, r = _run(lambda: a ** ureg.Quantity(k, "second"))
+        eng.prove(s == "DimensionalityError", "pow-dimensional-exponent-refused")
+    # bare number to the power of a dimensionless quantity
+    for label, e in (("plain", ureg.Quantity(k, "")), ("percent", ureg.Quantity(100 * k, "percent"))):
+        # (the scaled exponent with a concrete base: a wrong reading would need base ** 200)
+        cb = c if label == "plain" else eng.num(3)
+        s, r = _run(lambda: cb**e)
+        eng.prove(s == "ok", f"rpow:{label}:accepted")
+        if s == "ok":
+            m = r.to("").magnitude if hasattr(r, "to") else r
+            # (a Fraction base gives a float here in a Fraction registry: compared within 1e-12)
+            want_c = cb**k
+            eng.prove(abs(m - want_c) <= abs(want_c) * Fraction(1, 10**12), f"rpow:{label}:value")
+    if k != 0:
+        s, r = _run(lambda: c ** ureg.Quantity(k, "second"))
+        eng.prove(s == "DimensionalityError", "rpow-dimensional-exponent-refused")
+    eng.prove(Eq(a.magnitude, x), "pow-operand-untouched")
+
+
+def h_unary_misc(eng, u):
+    """+q, abs, bool, round, int/float of dimensionless quantities"""
+    ureg = regs.default(eng)
+    iu = covers.info(u)
+    x = eng.real("x")
+    a = ureg.Quantity(x, u)
+    p = +a
+    eng.prove(And(Eq(p.magnitude, x), p.units == a.units), "pos")
+    eng.prove(Iff(bool(a), Not(Eq(x, 0))), "bool-is-nonzero")
+    for val, nd in ((Fraction(12345, 1000), 1), (Fraction(-5, 2), 0), (Fraction(7, 3), 2)):
+        q = ureg.Quantity(eng.num(val), u)
+        r = round(q, nd)
+        eng.prove(Eq(r.magnitude, round(val, nd)) and r.units == q.units, f"round:{val}:{nd}")
+    dimless = not iu.dims
+    for val in (Fraction(250), Fraction(-7, 2)):
+        q = ureg.Quantity(eng.num(val), u)
+        for name, fn in (("int", int), ("float", float)):
+            try:
+                got = fn(q)
+            except DimensionalityError:
+                eng.prove(not dimless, f"{name}-refused-only-when-dimensional")
+                continue
+            eng.prove(dimless, f"{name}-accepted-only-when-dimensionless")
+            if dimless and not iu.inexact:
+                eng.prove(got == fn(val * iu.num), f"{name}:value:{val}")
+
+
 def h_bare_number(eng, op, u, side):
     """a bare number is accepted by + and - iff the quantity is dimensionless or the number is zero"""
     ureg = regs.default(eng)
@@ -328,6 +389,11 @@ def cases(tier, seed):
             if v == "meter" and op in ("add", "sub"):
                 continue  # bare numbers with dimensional quantities: H03.c
             out.append(Case("H03.b", f"reflected:{op}:number,{v}", M, "h_forms", {"op": op, "u": "meter", "v": v, "form": "reflected"}, weight=2.0, opts={"query_timeout_ms": 20000}))
+    for k in (-2, -1, 0, 1, 2, 3):
+        for u in ("meter", "percent") + (("newton", "inch") if big else ()):
+            out.append(Case("H03.b", f"power-forms:{u}**{k}", M, "h_power_forms", {"u": u, "k": k}))
+    for u in ("meter", "percent", "radian", "count", "ppm", "newton"):
+        out.append(Case("H03.b", f"unary-misc:{u}", M, "h_unary_misc", {"u": u}))
     # H03.c admissibility
     for op in ("add", "sub"):
         for u in ("meter", "radian", "percent", "count", "newton", "ppm", "degree", "byte"):
